@@ -203,23 +203,8 @@ func (h *harness) runCase(c *Case) (fails []failure, rejected bool) {
 				if d := diff(want, got.maskDefaults()); d != "" {
 					fail(failure{Part: "intro", Kind: "property", Class: "describe-mismatch", What: fmt.Sprintf("features %v: introspection differs from the definition at %s", F, d)})
 				}
-				reach := c.S.reachable()
-				var plain, gatedDirArg []dangling
-				for _, dr := range got.danglingRefs() {
-					// F-10g classifier: the type of a directive argument, a registered type whose
-					// required features the request does not have
-					if strings.HasPrefix(dr.Where, "@") && reach[dr.Name] && c.S.typeByName(dr.Name) != nil && !subset(c.S.featOf(dr.Name), F) {
-						gatedDirArg = append(gatedDirArg, dr)
-					} else {
-						plain = append(plain, dr)
-					}
-				}
-				if len(plain) > 0 {
-					fail(failure{Part: "intro", Kind: "property", Class: "dangling-ref", What: fmt.Sprintf("features %v: type reference does not resolve to a listed type: %s -> %s", F, plain[0].Where, plain[0].Name)})
-				}
-				if len(gatedDirArg) > 0 {
-					fail(failure{Part: "intro", Kind: "property", Class: "dangling-ref-directive-arg", Finding: "F-10g-gated-directive-argument-type",
-						What: fmt.Sprintf("features %v: directive argument type does not resolve to a listed type: %s -> %s (requires %v)", F, gatedDirArg[0].Where, gatedDirArg[0].Name, c.S.featOf(gatedDirArg[0].Name))})
+				if dr := got.danglingRefs(); len(dr) > 0 {
+					fail(failure{Part: "intro", Kind: "property", Class: "dangling-ref", What: fmt.Sprintf("features %v: type reference does not resolve to a listed type: %s -> %s", F, dr[0].Where, dr[0].Name)})
 				}
 				if h.model != nil {
 					if f := h.tieIntro(bt, s, F, got); f != nil {
